@@ -4,6 +4,8 @@ import os
 import time
 
 VERIF = os.path.dirname(os.path.dirname(os.path.abspath(__file__)))
+# scratch runs of the seed tester write their evidence elsewhere so that /verif/evidence always describes /repo itself
+EVID = os.environ.get('SPX_EVIDENCE_DIR', os.path.join(VERIF, 'evidence'))
 
 HOLDS, VIOLATED, UNRECOGNISED = 'HOLDS', 'VIOLATED', 'UNRECOGNISED'
 
@@ -78,9 +80,9 @@ def finish(rep, tier, t0, fb, seed=0):
             else:
                 viol.append(i)
     unused = [k for kk, k in active.items() if not any(h[1] is k for h in knownhits)]
-    os.makedirs(os.path.join(VERIF, 'evidence', 'replay'), exist_ok=True)
+    os.makedirs(os.path.join(EVID, 'replay'), exist_ok=True)
     # stale replay files of this property
-    rdir = os.path.join(VERIF, 'evidence', 'replay')
+    rdir = os.path.join(EVID, 'replay')
     for f in os.listdir(rdir):
         if f.startswith(prop + '-'):
             os.remove(os.path.join(rdir, f))
@@ -132,7 +134,7 @@ def finish(rep, tier, t0, fb, seed=0):
     ev['coverage'].update(rep.extra)
     if broken:
         ev['coverage']['analysis_broken'] = broken
-    json.dump(ev, open(os.path.join(VERIF, 'evidence', prop + '.json'), 'w'), indent=1)
+    json.dump(ev, open(os.path.join(EVID, prop + '.json'), 'w'), indent=1)
     for i, k in knownhits:
         print('KNOWN-FINDING: property=%s %s %s at %s: %s' % (prop, i['rule'], i['key'], i['where'], k.get('what', i['detail'])))
     for k in unused:
